@@ -15,7 +15,8 @@ fn plans(tier: Tier) -> Vec<Plan> {
     match tier {
         Tier::Quick => vec![
             Plan { n: 1, depth: 5, cfgs: traced(&[0, 65534], true) },
-            Plan { n: 2, depth: 4, cfgs: traced(&[0, 65534], true) },
+            // (with "the queue is dropped while the device still has it" as a final operation)
+            Plan { n: 2, depth: 4, cfgs: traced(&[0, 65534], true).into_iter().map(|mut c| { c.drop_op = true; c }).collect() },
             Plan { n: 4, depth: 3, cfgs: traced(&[0], false) },
             // Deeper histories over the reduced shape set (recycled, non-sequential free lists).
             Plan { n: 4, depth: 5, cfgs: traced(&[0], false).into_iter().filter(|c| !c.ap).map(|mut c| { c.reduced = true; c.notify_ops = false; c }).collect() },
@@ -29,7 +30,7 @@ fn plans(tier: Tier) -> Vec<Plan> {
         ],
         Tier::Thorough => vec![
             Plan { n: 1, depth: 9, cfgs: traced(&[0, 65535, 65533], true) },
-            Plan { n: 2, depth: 7, cfgs: traced(&[0, 65535, 65533], true) },
+            Plan { n: 2, depth: 7, cfgs: traced(&[0, 65535, 65533], true).into_iter().map(|mut c| { c.drop_op = true; c }).collect() },
             Plan { n: 4, depth: 5, cfgs: traced(&[0, 65534], true) },
             Plan { n: 8, depth: 4, cfgs: traced(&[0], false) },
             Plan { n: 4, depth: 5, cfgs: traced(&[0, 65533], true).into_iter().filter(|c| !c.ap).flat_map(|c| [1u8, 2].map(|p| { let mut c = c; c.preroll = p; c.notify_ops = false; c })).collect() },
